@@ -378,6 +378,161 @@ fn run_case(rep: &Report, l: &mut Local, id: iroh_base::EndpointId, c: &Case, re
     }
 }
 
+fn allowed_set(headers: &[Vec<u8>], q: Option<&str>) -> (Vec<Option<String>>, Why) {
+    let (strict, why) = reference(headers, q, STRICT);
+    let mut allowed: Vec<Option<String>> = vec![strict];
+    for bits in 1..8u8 {
+        let pol = Policy { utf8_is_text: bits & 1 != 0, trim_spaces: bits & 2 != 0, bare_is_empty: bits & 4 != 0 };
+        let (r, _) = reference(headers, q, pol);
+        if !allowed.contains(&r) {
+            allowed.push(r);
+        }
+    }
+    (allowed, why)
+}
+
+fn trim_ows(mut v: &[u8]) -> &[u8] {
+    while let [b' ' | b'\t', rest @ ..] = v {
+        v = rest;
+    }
+    while let [rest @ .., b' ' | b'\t'] = v {
+        v = rest;
+    }
+    v
+}
+
+/// What the access policy of a real server saw for each connection.
+#[derive(Debug, Default)]
+struct TokenPolicy {
+    seen: std::sync::Mutex<Vec<(iroh_base::EndpointId, Option<String>, Option<String>, Vec<Vec<u8>>)>>,
+}
+
+impl iroh_relay::server::AccessControl for TokenPolicy {
+    async fn on_connect(&self, request: &ClientRequest) -> iroh_relay::server::Access {
+        self.seen.lock().unwrap().push((
+            request.endpoint_id(),
+            request.auth_token(),
+            request.uri().query().map(|q| q.to_string()),
+            request.headers().get_all(AUTHORIZATION).iter().map(|v| v.as_bytes().to_vec()).collect(),
+        ));
+        iroh_relay::server::Access::Allow
+    }
+}
+
+/// Layer 2: the token the access policy of a real `Server` sees for a real upgrade request
+/// carrying the generated Authorization lines and query (raw HTTP, then websocket + relay
+/// handshake by hand so that the policy is consulted).
+async fn system_layer(rep: &Report, l: &mut Local, rng: &mut Rng, n: u64) {
+    use futures_util::{SinkExt, StreamExt};
+    use iroh_relay::server::{RelayConfig, Server, ServerConfig};
+    use mon_relay::proto_util as pu;
+    let budget = std::time::Duration::from_secs(30);
+    let policy = std::sync::Arc::new(TokenPolicy::default());
+    let mut relay = RelayConfig::new((std::net::Ipv4Addr::LOCALHOST, 0));
+    relay.access = policy.clone();
+    let mut cfg = ServerConfig::default();
+    cfg.relay = Some(relay);
+    let server = match Server::spawn(cfg).await {
+        Ok(s) => s,
+        Err(e) => {
+            rep.inconclusive("layer2-server-spawn-failed");
+            rep.note(format!("{e}"));
+            return;
+        }
+    };
+    let addr = server.http_addr().unwrap();
+    for _ in 0..n {
+        let nh = rng.below(4) as usize;
+        let c = Case { headers: (0..nh).map(|_| gen_header(rng)).collect(), decoys: rng.chance(1, 4), query: gen_query(rng) };
+        let replay = json!({"layer": 2, "case": case_json(&c)});
+        let sk = SecretKey::from_bytes(&rng.array::<32>());
+        let Ok(Ok(mut s)) = tokio::time::timeout(budget, tokio::net::TcpStream::connect(addr)).await else {
+            rep.inconclusive("layer2-connect");
+            continue;
+        };
+        let mut headers = pu::upgrade_headers(&addr.to_string(), &data_encoding::BASE64.encode(&rng.array::<16>()));
+        headers.push(("Sec-WebSocket-Protocol", b"iroh-relay-v2".to_vec()));
+        if c.decoys {
+            headers.push(("Proxy-Authorization", b"Bearer decoy-proxy".to_vec()));
+        }
+        for h in &c.headers {
+            headers.push(("Authorization", h.clone()));
+        }
+        if c.decoys {
+            headers.push(("X-Authorization", b"Bearer decoy-x".to_vec()));
+        }
+        let line = match &c.query {
+            Some(q) => format!("GET /relay?{q} HTTP/1.1"),
+            None => "GET /relay HTTP/1.1".to_string(),
+        };
+        if pu::write_request(&mut s, &line, &headers).await.is_err() {
+            rep.inconclusive("layer2-write");
+            continue;
+        }
+        let Some(head) = pu::read_head(&mut s, budget).await else {
+            *l.entry("layer2.no-http-response").or_default() += 1;
+            continue;
+        };
+        if head.status() != Some(101) {
+            // the HTTP layer (request-target / header syntax) refused it: outside the quantifier
+            *l.entry("layer2.refused-by-http-layer").or_default() += 1;
+            continue;
+        }
+        // websocket + relay handshake so that the access policy is consulted
+        let mut ws = tokio_websockets::ClientBuilder::new().take_over(s);
+        let done = async {
+            let m = tokio::time::timeout(budget, ws.next()).await.ok()??.ok()?;
+            let p: bytes::Bytes = m.into_payload().into();
+            let (tag, n) = pu::read_varint(&p)?;
+            if tag != pu::TAG_SERVER_CHALLENGE {
+                return None;
+            }
+            let ch: [u8; 16] = p[n..].try_into().ok()?;
+            ws.send(tokio_websockets::Message::binary(bytes::Bytes::from(pu::client_auth_frame(&sk, &ch)))).await.ok()?;
+            let m = tokio::time::timeout(budget, ws.next()).await.ok()??.ok()?;
+            let p: bytes::Bytes = m.into_payload().into();
+            (pu::read_varint(&p)?.0 == pu::TAG_SERVER_CONFIRMS).then_some(())
+        }
+        .await;
+        if done.is_none() {
+            rep.inconclusive("layer2-handshake-not-completed");
+            continue;
+        }
+        let entry = policy.seen.lock().unwrap().iter().find(|e| e.0 == sk.public()).cloned();
+        let Some((_, got, seen_query, seen_headers)) = entry else {
+            rep.violation("C12:system:policy-not-consulted-for-admitted-connection", "handshake confirmed, no on_connect recorded", replay);
+            continue;
+        };
+        *l.entry("__evals").or_default() += 1;
+        // what HTTP delivers: values without the optional whitespace around them
+        let wire: Vec<Vec<u8>> = c.headers.iter().map(|h| trim_ows(h).to_vec()).collect();
+        if seen_headers != wire || seen_query.as_deref() != c.query.as_deref() {
+            rep.violation(
+                "C12:system:policy-request-differs-from-wire-request",
+                format!("sent headers {:?} query {:?}; the policy's request has headers {:?} query {:?}", wire.iter().map(|h| String::from_utf8_lossy(h).into_owned()).collect::<Vec<_>>(), c.query,
+                    seen_headers.iter().map(|h| String::from_utf8_lossy(h).into_owned()).collect::<Vec<_>>(), seen_query),
+                replay,
+            );
+            continue;
+        }
+        let (allowed, why) = allowed_set(&wire, c.query.as_deref());
+        if allowed.contains(&got) {
+            let k = match why {
+                Why::Bearer(_) => "layer2.policy-saw.bearer-token",
+                Why::NonText(_) => "layer2.policy-saw.none(non-text-stop)",
+                Why::Query(_) => "layer2.policy-saw.query-token",
+                Why::Nothing => "layer2.policy-saw.none",
+            };
+            *l.entry(k).or_default() += 1;
+            rep.nontrivial(format!("L2/{}", replay).as_bytes());
+        } else {
+            rep.violation("C12:system:policy-saw-wrong-token", format!("policy saw {got:?}, allowed {allowed:?}"), replay);
+        }
+        drop(ws);
+    }
+    let _ = tokio::time::timeout(std::time::Duration::from_secs(10), server.shutdown()).await;
+}
+
 fn main() {
     let a = args();
     let rep = Report::new(
@@ -388,7 +543,7 @@ fn main() {
     let id = SecretKey::from_bytes(&[7u8; 32]).public();
     if let Some(p) = &a.replay {
         let v: Value = serde_json::from_str(&std::fs::read_to_string(p).unwrap()).unwrap();
-        let r = &v["replay"];
+        let r = if v["replay"]["layer"].as_u64() == Some(2) { &v["replay"]["case"] } else { &v["replay"] };
         let c = Case {
             headers: r["headers_hex"].as_array().unwrap().iter().map(|h| unhex(h.as_str().unwrap())).collect(),
             decoys: r["decoys"].as_bool().unwrap_or(false),
@@ -427,10 +582,23 @@ fn main() {
                         break;
                     }
                 }
+                if shard == 0 {
+                    let n2 = a.pick(3000u64, 60_000u64);
+                    let r = catch(|| {
+                        let rt = tokio::runtime::Builder::new_multi_thread().worker_threads(2).enable_all().build().unwrap();
+                        rt.block_on(system_layer(rep, &mut l, &mut rng, n2));
+                    });
+                    if let Err(p) = r {
+                        rep.violation(&format!("C12:panic@{}", common::short_loc(&p)), p, json!({"layer": 2}));
+                    }
+                }
                 flush(rep, &l);
             });
         }
     });
+    for k in ["layer2.policy-saw.bearer-token", "layer2.policy-saw.query-token", "layer2.policy-saw.none(non-text-stop)", "layer2.policy-saw.none"] {
+        rep.require(k, 10);
+    }
     for k in [
         "decided.bearer.first_header",
         "decided.bearer.after_skipped_headers",
